@@ -1011,8 +1011,10 @@ def stream_out_transform(body, stream_vars, str_macros=()):
             for op in ops:
                 o = op.strip()
                 nl = '\n' * op.count('\n')
-                if o == 'dec':
-                    calls.append('out_dec(%s);%s' % (target, nl))
+                if o in ('dec', 'fixed', 'std::skipws', 'skipws', 'std::fixed', 'std::dec'):
+                    calls.append('out_%s(%s);%s' % (o.split('::')[-1], target, nl))
+                elif re.match(r'^(std::)?resetiosflags\(.*\)$', o):
+                    calls.append('out_resetflags(%s);%s' % (target, nl))
                 elif o == 'hex':
                     calls.append('out_hex(%s);%s' % (target, nl))
                 elif re.match(r'^setw\((.*)\)$', o):
